@@ -232,6 +232,12 @@ def natural_bounds(rnd, vs, phys):
         a, b = phys - rnd.uniform(0.01, 0.05), phys + rnd.uniform(0.01, 0.05)
     else:
         a, b = phys - rnd.uniform(0.1, 0.5), phys + rnd.uniform(0.1, 0.5)
+    # a bound of exactly 0 is a bound like any other (thickness >= 0, conic <= 0, decentre >= 0 ...)
+    if rnd.random() < 0.25:
+        if a < 0.0 < phys or (t == "thickness" and phys > 0.0):
+            a = 0.0
+        elif phys < 0.0 < b:
+            b = 0.0
     return a, b
 
 
